@@ -17,7 +17,7 @@ func init() {
 			"R3 kind discipline: pos evaluates to the start of a token or a child's pos; end to the end of a token, a child's end, or start + n where n equals the byte length of that token as established by the guards on the path (expect(\"X\"), expectKeywordLike(\"X\"), a switch on the kind evaluated while the token was current), constants and len(field) included, (B ? a : b) per constant of B. " +
 			"R5 sibling order: the declaration order of the node-typed fields equals the order of their parse events in every production (CreateTable exempt as in the property). " +
 			"Does not decide: 0 <= Pos and End <= len(input) (numeric, follows from token positions being in range), Bad* ranges (C10).",
-		Rules: []ruleFn{ruleC05Anchors, ruleC05R5},
+		Rules: []ruleFn{ruleC05Anchors, ruleC05R5, ruleC06Order},
 	})
 	register(&propDef{
 		ID: "C06",
